@@ -2,6 +2,7 @@
 
 from __future__ import annotations
 
+import re
 import shutil
 from pathlib import Path
 
@@ -27,7 +28,9 @@ RULE = (
     "body with the inherited tags/properties made explicit); recompiling: same set of ZIDs, every other note "
     "unchanged in every field but the line number, moved note's tags and properties are supersets of the old "
     "ones, its old body words survive in order; both pages error-free.  Non-trivial = multi-line note, or ZID "
-    "mentioned elsewhere, or inherited metadata, or destination without trailing blank line; distinct by SHA-1 of "
+    "mentioned elsewhere, or inherited metadata, or destination without trailing blank line.  (sequence) up to four "
+    "moves in a row on one working copy without reindexing in between (the indexed line numbers go stale), same "
+    "oracle after each; distinct by SHA-1 of "
     "(directory, note, destination, marker)."
 )
 ASSUMPTIONS = [
@@ -57,6 +60,26 @@ def _case(draw):
         moves.append({"zid": it["zid"], "dest": draw(st.sampled_from(DEST_KINDS)),
                       "marker": draw(st.sampled_from([None, None, "x", "~"])),
                       "other": draw(st.integers(0, 5))})
+    return {"dir": d, "today": "2024-06-15", "moves": moves}
+
+
+@st.composite
+def _seq_case(draw):
+    """Directories for move sequences: later notes of a page mention the ZIDs of earlier ones."""
+    d = draw(P.directory(2, 3, rich=draw(st.booleans()), max_headers=1, all_zids=True))
+    items = [(rel, it) for rel, pg in d.items() for it in P.iter_items(pg)]
+    for rel, pg in d.items():
+        its = list(P.iter_items(pg))
+        for i, it in enumerate(its):
+            if i and draw(st.booleans()):
+                target = its[i - draw(st.integers(1, min(i, 2)))]
+                form = draw(st.sampled_from(["{z}", "[{z}]", "after {z} is done", "({z})"]))
+                ln = draw(st.sampled_from([l for l in it["lines"] if "words" in l]))
+                ln["words"].append(W(form.format(z=target["zid"]), *([("links", "zid:" + target["zid"])] if form == "[{z}]" else [])))
+    moves = [{"zid": it["zid"], "dest": draw(st.sampled_from(["other", "other", "same", "missing+template"])),
+              "marker": draw(st.sampled_from([None, "x", "~"])), "other": draw(st.integers(0, 5))}
+             for rel, it in items]
+    # move notes of one page top-down, so that lines above later notes disappear
     return {"dir": d, "today": "2024-06-15", "moves": moves}
 
 
@@ -171,7 +194,11 @@ def _one_move(zdir, cfg, note, rows, src_rel, dest_rel, dest_init, mv, rec, one,
         return
     n_lines = len(note["body"].split("\n"))
     sl = src_before.split("\n")
-    i0 = note["line"] - 1
+    own = re.compile(r"^[-ox~<>] +(P[0-9] +)?([0-9]{6} +)?" + re.escape(zid) + r"( |$)")
+    starts = [i for i, ln in enumerate(sl) if own.match(ln)]
+    if len(starts) != 1:
+        raise InvalidCase("note not found exactly once in its source page")
+    i0 = starts[0]  # (the indexed line number may be stale after earlier moves)
     item_lines = sl[i0:i0 + n_lines]
     what = f"move {zid} ({src_rel}:{note['line']}, {n_lines} line(s)) -> {dest_rel} marker={mv['marker']}"
     if dest_before is None:
@@ -270,7 +297,51 @@ def _one_move(zdir, cfg, note, rows, src_rel, dest_rel, dest_init, mv, rec, one,
 P_KIND_CHAR = {v: k for k, v in P.KIND_NAME.items()}
 
 
+def check_sequence(case, rec: Rec) -> None:
+    """Several moves in a row on one working copy, no reindex in between (the index's line numbers
+    go stale: `note move` itself never reindexes)."""
+    files = {}
+    for rel, pg in case["dir"].items():
+        files[rel] = P.render(pg, case["today"])[0]
+        if any(P.independent_parse(files[rel])[:2]):
+            raise InvalidCase("page does not parse cleanly")
+    with env.sandbox("vz-c10s-") as box, env.frozen(case["today"]):
+        zdir = box / "org"
+        zdir.mkdir()
+        env.write_files(zdir, files)
+        (zdir / "tmpl").mkdir()
+        (zdir / "tmpl" / "done.zot").write_text(_TEMPLATE)
+        cfg = env.write_config(box / "cfg.yml", template_pattern_map={r"^done_(?P<name>\w+)\.zo$": "tmpl/done.zot"})
+        r = env.zorg(zdir, "db", "create", config=cfg)
+        if r.code != 0:
+            raise InvalidCase(f"db create failed: {r.out[-200:]}")
+        rows = dbdump.dump(zdir)["notes"]
+        by_zid = {n["zid"]: n for n in rows}
+        done = 0
+        for mi, mv in enumerate(case["moves"][:4]):
+            note = dict(by_zid[mv["zid"]])
+            # where the note lives now (it may have been moved already)
+            cur = [rel for rel in sorted(env.read_tree(zdir)) if rel.endswith(".zo") and
+                   re.search(r"(?m)^[-ox~<>] +(P[0-9] +)?([0-9]{6} +)?" + re.escape(mv["zid"]) + r"( |$)", (zdir / rel).read_text())]
+            if len(cur) != 1:
+                raise Violation("note-not-exactly-once", f"before move {mi}: {mv['zid']} found in {cur}",
+                                case=dict(case, moves=case["moves"][:mi + 1]))
+            if cur[0] != note["page"]:
+                continue  # already moved away: the index no longer knows where it is (caller precondition)
+            kind = mv["dest"] if mv["dest"] in ("other", "same", "missing+template") else "other"
+            dest_rel, dest_init = _dest(kind, case["dir"], note["page"], mv["other"])
+            all_files = {rel: t for rel, t in env.read_tree(zdir).items() if rel.endswith(".zo")}
+            one = dict(case, moves=case["moves"][:mi + 1])
+            _one_move(zdir, cfg, note, rows, note["page"], dest_rel, dest_init, mv, rec, one, all_files)
+            done += 1
+        rec.info["sequence_moves"] = done
+    rec.label("sequence")
+    rec.nontrivial = done >= 2
+
+
 def parts(tier):
     quick = tier == "quick"
     return [HypPart(name="move", check=check, strategy=_case,
-                    examples=10 if quick else 400, seconds=35 if quick else 800)]
+                    examples=6 if quick else 400, seconds=22 if quick else 800),
+            HypPart(name="sequence", check=check_sequence, strategy=_seq_case,
+                    examples=6 if quick else 400, seconds=20 if quick else 500)]
